@@ -502,6 +502,8 @@ impl<'l, Data> EventLoop<'l, Data> {
         let events = {
             let poll = self.handle.inner.poll.borrow();
             loop {
+                #[cfg(calloop_verif)]
+                crate::verif::yield_point(132);
                 let result = poll.poll(timeout);
 
                 match result {
@@ -702,10 +704,16 @@ impl<'l, Data> EventLoop<'l, Data> {
         F: FnMut(&mut Data),
     {
         let timeout = timeout.into();
+        #[cfg(calloop_verif)]
+        crate::verif::yield_point(130);
         self.signals.stop.store(false, Ordering::Release);
+        #[cfg(calloop_verif)]
+        crate::verif::yield_point(131);
         while !self.signals.stop.load(Ordering::Acquire) {
             self.dispatch(timeout, data)?;
             cb(data);
+            #[cfg(calloop_verif)]
+            crate::verif::yield_point(131);
         }
         Ok(())
     }
@@ -732,13 +740,21 @@ impl<'l, Data> EventLoop<'l, Data> {
         impl Wake for EventLoopWaker {
             fn wake(self: Arc<Self>) {
                 // Set the waker.
+                #[cfg(calloop_verif)]
+                crate::verif::yield_point(135);
                 self.0.signal.future_ready.store(true, Ordering::Release);
+                #[cfg(calloop_verif)]
+                crate::verif::yield_point(136);
                 self.0.notifier.notify().ok();
             }
 
             fn wake_by_ref(self: &Arc<Self>) {
                 // Set the waker.
+                #[cfg(calloop_verif)]
+                crate::verif::yield_point(135);
                 self.0.signal.future_ready.store(true, Ordering::Release);
+                #[cfg(calloop_verif)]
+                crate::verif::yield_point(136);
                 self.0.notifier.notify().ok();
             }
         }
@@ -757,11 +773,17 @@ impl<'l, Data> EventLoop<'l, Data> {
         // Begin running the loop.
         let mut output = None;
 
+        #[cfg(calloop_verif)]
+        crate::verif::yield_point(130);
         self.signals.stop.store(false, Ordering::Release);
         self.signals.future_ready.store(true, Ordering::Release);
 
+        #[cfg(calloop_verif)]
+        crate::verif::yield_point(131);
         while !self.signals.stop.load(Ordering::Acquire) {
             // If the future is ready to be polled, poll it.
+            #[cfg(calloop_verif)]
+            crate::verif::yield_point(137);
             if self.signals.future_ready.swap(false, Ordering::AcqRel) {
                 // Poll the future and break the loop if it's ready.
                 if let Poll::Ready(result) = future.as_mut().poll(&mut context) {
@@ -774,6 +796,8 @@ impl<'l, Data> EventLoop<'l, Data> {
             self.dispatch_events(None, data)?;
             self.dispatch_idles(data);
             cb(data);
+            #[cfg(calloop_verif)]
+            crate::verif::yield_point(131);
         }
 
         Ok(output)
@@ -874,6 +898,8 @@ impl LoopSignal {
     ///
     /// This is only useful if you are using the `EventLoop::run()` method.
     pub fn stop(&self) {
+        #[cfg(calloop_verif)]
+        crate::verif::yield_point(133);
         self.signal.stop.store(true, Ordering::Release);
     }
 
@@ -884,6 +910,8 @@ impl LoopSignal {
     /// ensures the event loop will terminate quickly if you specified a long
     /// timeout (or no timeout at all) to the `dispatch` or `run` method.
     pub fn wakeup(&self) {
+        #[cfg(calloop_verif)]
+        crate::verif::yield_point(134);
         self.notifier.notify().ok();
     }
 }
